@@ -180,6 +180,11 @@ class CpuBudgetExceeded(BaseException):
     regular-expression engine, where no Python line event fires - and does not grow when the machine is busy with other processes."""
 
 
+class ShardCutShort(BaseException):
+    "raised into the property module to end a shard early; the worker writes out what was observed so far"
+
+
+_OVER = [0]
 CPU_BUDGET = float(os.environ.get('VERIF_CPU_BUDGET', '40'))
 _ACTIVE = []        # process_time() at the entry of the monitored calls in progress (nested: a call made from inside a callback)
 
@@ -201,12 +206,17 @@ def install_cpu_guard():
 def call(fn, *a, **kw):
     """Total wrapper: returns ('ok', value) or ('exc', exception).  BaseException other
     than KeyboardInterrupt/SystemExit is an observation too (injected faults, an exceeded CPU budget)."""
+    if _OVER[0] >= 3:
+        # three calls of this shard have already burnt their whole CPU budget (each is reported): the rest of the shard would only repeat it
+        raise ShardCutShort('%d monitored calls exceeded the CPU budget of %.0f s' % (_OVER[0], CPU_BUDGET))
     _ACTIVE.append(time.process_time())
     try:
         return ('ok', fn(*a, **kw))
-    except (KeyboardInterrupt, SystemExit):
+    except (KeyboardInterrupt, SystemExit, ShardCutShort):
         raise
     except BaseException as e:       # noqa: an exception is an observation
+        if isinstance(e, CpuBudgetExceeded):
+            _OVER[0] += 1
         return ('exc', e)
     finally:
         _ACTIVE.pop()
